@@ -359,3 +359,5 @@ pub fn run(ctx: &Ctx) -> (Acc, String, bool) {
     );
     (acc, rule, true)
 }
+
+pub const ASSUMPTIONS: &[&str] = &["definedness table (DESIGN Appendix C) transcribed once from the runtime's explicit match arms; it is the specification of which cells have a defined result", "defined cells are judged only by the generic clauses (at most one defer, unit after decline, host result used, one result, UnsupportedOpTypes never escapes)"];
